@@ -244,12 +244,21 @@ theorem outcomeFor_final {cfg : Cfg} {exec : Id → Nat → Outcome} (hfin : ∀
   · rfl
   · exact hfin _ _
 
+/-- every handler THIS pass runs gets a final outcome (a failed precheck — timeout, retries exhausted — is final) -/
+def PlanFinal (cfg : Cfg) (P : Store) (now : Tick) (exec : Id → Nat → Outcome) : Prop :=
+  ∀ i ∈ plannedOf cfg P now,
+    (outcomeFor cfg exec now (startRec cfg P now (extras cfg P now) i) i).final = true
+
+theorem planFinal_of_allFinal {cfg : Cfg} {P : Store} {now : Tick} {exec : Id → Nat → Outcome}
+    (hfin : ∀ i n, (exec i n).final = true) : PlanFinal cfg P now exec :=
+  fun i _ => outcomeFor_final hfin now _ i
+
 section OpenPass
 variable (cfg : Cfg) (P : Store) (now now1 : Tick) (exec : Id → Nat → Outcome)
 variable (hsub : ∀ i ∈ cfg.selected, i ∈ cfg.owned) (hu : UniformOn cfg.owned P)
 variable (hr : handlerReasons.contains cfg.reason = true) (hne : cfg.selected.isEmpty = false)
 variable (hopen : (cycle cfg P now now1 exec).closed = false)
-variable (hfin : ∀ i n, (exec i n).final = true)
+variable (hfin : PlanFinal cfg P now exec)
 include hsub hu hr hne hopen hfin
 
 /-- after an open pass a selected handler is unfinished iff it was unfinished and was not run -/
@@ -259,7 +268,7 @@ theorem open_unfin (i : Id) (hs : i ∈ cfg.selected) :
   unfold unfin at *
   rw [hrec]
   by_cases hp : i ∈ plannedOf cfg P now
-  · simp [hp, withOutcome_finished, outcomeFor_final hfin]
+  · simp [hp, withOutcome_finished, hfin i hp]
   · simp only [hp, if_false, decide_false, Bool.not_false, Bool.and_true]
     have := startRec_unfin cfg P now (extras cfg P now) i
     unfold unfin at this
@@ -271,7 +280,7 @@ theorem open_slack (cap : Tick) (now' : Tick) (hle : now ≤ now') (i : Id) (hs 
   unfold slack
   rw [hrec]
   by_cases hp : i ∈ plannedOf cfg P now
-  · simp [hp, withOutcome_finished, outcomeFor_final hfin]
+  · simp [hp, withOutcome_finished, hfin i hp]
   · simp only [hp, if_false]
     unfold startRec
     cases hP : P i with
@@ -428,5 +437,28 @@ theorem sleep_pass_delay {cfg : Cfg} {P : Store} {now : Tick} {exec : Id → Nat
           simp only [hd, Option.some.injEq] at hv
           exact ⟨i, hs, r, d, hP, hact.2, hd, haw, int_max_sub d now m haw hv⟩
     · cases hv
+
+/-- the link to what the pass reports: if every invocation the pass makes has a final scripted outcome, then every
+    handler it runs gets a final outcome -/
+theorem planFinal_of_invoked {cfg : Cfg} {P : Store} {now now1 : Tick} {exec : Id → Nat → Outcome}
+    (hsub : ∀ i ∈ cfg.selected, i ∈ cfg.owned) (hu : UniformOn cfg.owned P)
+    (hr : handlerReasons.contains cfg.reason = true) (hne : cfg.selected.isEmpty = false)
+    (h : ∀ p ∈ (cycle cfg P now now1 exec).invoked, (exec p.1 p.2).final = true) :
+    PlanFinal cfg P now exec := by
+  intro i hi
+  unfold outcomeFor
+  split
+  · rfl
+  · rename_i hpc
+    obtain ⟨his, _⟩ := planned_sub hsub hi
+    obtain ⟨h0, hpre, hr0, _⟩ := pre_sel_value (now := now) hsub hu his
+    apply h (i, (startRec cfg P now (extras cfg P now) i).retries)
+    rw [cycle_main cfg P now now1 exec hr hne]
+    simp only
+    unfold execOnce
+    simp only [List.mem_map, List.mem_filter]
+    refine ⟨i, ⟨hi, ?_⟩, ?_⟩
+    · simp [hpre, hr0, hpc]
+    · simp [retriesOf, hpre, hr0]
 
 end Kopf.C03
